@@ -400,8 +400,8 @@ def rule_v4(chk: Check) -> None:
             good = False
             why = "comparison is not of the form len(x) [+k] > LIMIT"
         elif whole_buffer:
-            good = t >= 1023
-            why = f"fires at len >= {t}"
+            good = t >= 1024
+            why = f"refuses an unterminated buffer from {t} bytes on (must be >= 1024: a 1022-byte line may still be followed by a pending CR)"
         else:
             good = t == 1023
             why = f"rejects lines of >= {t} bytes (must be exactly 1023 = 1024 - CRLF + 1)"
